@@ -1,3 +1,4 @@
+mod c02;
 mod c06;
 mod c07;
 mod c13;
@@ -35,13 +36,16 @@ fn main() {
         i += 1;
     }
     // keep panic messages out of stderr noise: the harness catches panics deliberately
-    std::panic::set_hook(Box::new(|_| {}));
+    if std::env::var("VERIF_DEBUG").is_err() {
+        std::panic::set_hook(Box::new(|_| {}));
+    }
     let start = std::time::Instant::now();
     let mut ctx = Ctx::new(&runner, seed, tier == "thorough", search, only_case);
     match property.as_str() {
         "C20" => c20::run(&mut ctx),
         "C07" => c07::run(&mut ctx),
         "C06" => c06::run(&mut ctx),
+        "C02" => c02::run(&mut ctx),
         "C13" => c13::run(&mut ctx),
         "C14" => c14::run(&mut ctx),
         "C17" => c17::run(&mut ctx),
